@@ -112,6 +112,35 @@ func (w *World) setupCallbacks() {
 			return nil
 		}
 	}
+	if w.c.Cfg.Framed {
+		// A length-changing but self-consistent value representation (as the slab
+		// tool's): every value is stored followed by a 4-byte trailer; the callbacks
+		// agree on it, so byte totals are defined by ItemValLength everywhere.
+		trailer := []byte{0xF0, 0x0D, 0xCA, 0xFE}
+		cbs.ItemValLength = func(c *g.Collection, i *g.Item) int { return len(i.Val) + len(trailer) }
+		cbs.ItemValWrite = func(c *g.Collection, i *g.Item, wr io.WriterAt, off int64) error {
+			if _, err := wr.WriteAt(i.Val, off); err != nil {
+				return err
+			}
+			_, err := wr.WriteAt(trailer, off+int64(len(i.Val)))
+			return err
+		}
+		cbs.ItemValRead = func(c *g.Collection, i *g.Item, r io.ReaderAt, off int64, n uint32) error {
+			if n < uint32(len(trailer)) {
+				return fmt.Errorf("framed value shorter than its trailer: %d", n)
+			}
+			buf := make([]byte, n)
+			if _, err := r.ReadAt(buf, off); err != nil {
+				return err
+			}
+			if string(buf[n-uint32(len(trailer)):]) != string(trailer) {
+				return fmt.Errorf("framed value at %d lacks its trailer", off)
+			}
+			i.Val = buf[: n-uint32(len(trailer)) : n-uint32(len(trailer))]
+			return nil
+		}
+		w.ev["framed_values"]++
+	}
 	if bits&CbBeforeWrite != 0 {
 		cbs.BeforeItemWrite = func(c *g.Collection, i *g.Item) (*g.Item, error) {
 			w.ev["cb_beforewrite"]++
@@ -128,6 +157,9 @@ func (w *World) setupCallbacks() {
 		cbs.KeyCompareForCollection = func(name string) g.KeyCompare {
 			w.ev["cb_keycompare"]++
 			if ci, ok := w.cmpLoad[name]; ok {
+				if ci == CmpBytes && w.c.Cfg.RandSeed%2 == 0 {
+					return nil // documented: nil means the default, bytes.Compare
+				}
 				return CmpFunc(ci)
 			}
 			return nil
